@@ -29,10 +29,21 @@ META = dict(
 
 # ---------------------------------------------------------------------------------------------- H8a split
 
-def h_split(ctx, max_km, padding):
+FIBRE_PARAMS = {
+    'scalar': {'loss_coef': 0.2},
+    'loss_per_frequency': {'loss_coef': {'value': [0.21, 0.2, 0.22], 'frequency': [191e12, 193e12, 196e12]}},
+    'dispersion_per_frequency': {'loss_coef': 0.2, 'dispersion_per_frequency': {'value': [1.6e-5, 1.67e-5, 1.8e-5],
+                                                                                  'frequency': [191e12, 193e12, 196e12]}},
+    'lumped_losses': {'loss_coef': 0.2, 'lumped_losses': [{'position': 60, 'loss': 1.5}]},
+}
+PROBE_F = [191.5e12, 193.0e12, 195.5e12]
+
+
+def h_split(ctx, max_km, padding, fibre='scalar'):
     from gnpy.core.network import calculate_new_length, split_fiber
     from gnpy.core.elements import Fiber, Edfa
-    L = ctx.real('length_m', lo=1, hi=1_000_000)
+    # (a lumped loss must lie inside the fibre: the variant with one at 60 km starts above 60 km)
+    L = ctx.real('length_m', lo=60_000 if fibre == 'lumped_losses' else 1, lo_strict=fibre == 'lumped_losses', hi=1_000_000)
     max_length = max_km * 1000
     min_length = max(int(padding / 0.2 * 1e3), 50_000)
     bounds = range(min_length, max_length)
@@ -49,17 +60,43 @@ def h_split(ctx, max_km, padding):
     # the real split on a real graph
     els = [{'uid': 'a', 'type': 'Edfa', 'type_variety': 'std_medium_gain', 'operational': {'gain_target': 20, 'tilt_target': 0, 'out_voa': 0}},
            {'uid': 'f', 'type': 'Fiber', 'type_variety': 'SSMF',
-            'params': {'length': L / 1000, 'length_units': 'km', 'loss_coef': 0.2, 'con_in': 0.5, 'con_out': 0.5, 'att_in': 0}},
+            'params': dict({'length': L / 1000, 'length_units': 'km', 'con_in': 0.5, 'con_out': 0.5, 'att_in': 0}, **FIBRE_PARAMS[fibre])},
            {'uid': 'b', 'type': 'Edfa', 'type_variety': 'std_medium_gain', 'operational': {'gain_target': 20, 'tilt_target': 0, 'out_voa': 0}}]
     g, by = build_elements(els, connections=[{'from_node': 'a', 'to_node': 'f'}, {'from_node': 'f', 'to_node': 'b'}])
-    split_fiber(g, by['f'], bounds, target)
+    import numpy as np
+    probe = np.array(PROBE_F)
+    ref_coef = [float(x) for x in np.atleast_1d(by['f'].loss_coef_func(probe))]
+    ref_cd_per_m = [float(x) for x in np.atleast_1d(by['f'].beta2(probe))]
+    ref_lumped_db = sum(x['loss'] for x in by['f'].params.lumped_losses)
+    try:
+        split_fiber(g, by['f'], bounds, target)
+        err = None
+    except Exception as e:      # noqa
+        err = f'{type(e).__name__}: {e}'
+    ctx.prove('lumped losses: the split succeeds' if fibre == 'lumped_losses' else 'the split succeeds', err is None,
+              info=dict(info, fibre=fibre, error=err))
+    if err is not None:
+        return
     fibers = [x for x in g.nodes() if isinstance(x, Fiber)]
+    if fibre == 'lumped_losses':
+        got = sum(x['loss'] for fb in fibers for x in fb.params.lumped_losses)
+        ctx.prove('lumped losses: spans together have the original lumped loss', abs(got - ref_lumped_db) < 1e-9,
+                  info=dict(info, fibre=fibre, lumped_db_before=ref_lumped_db, lumped_db_after=got))
     ctx.prove('graph holds n equal fibre spans', len(fibers) == n, info=info)
     tot = 0
     for fb in fibers:
         tot = tot + fb.params.length
         ctx.prove('span length', eq(fb.params.length, new_len), info=info)
-        ctx.prove('span keeps the fibre type and loss coefficient', fb.type_variety == 'SSMF' and float(fb.params.loss_coef) == 0.2e-3)
+        try:
+            coef = [float(x) for x in np.atleast_1d(fb.loss_coef_func(probe))]
+            cd = [float(x) for x in np.atleast_1d(fb.beta2(probe))]
+            err = None
+        except Exception as e:      # noqa
+            coef, cd, err = None, None, f'{type(e).__name__}: {e}'
+        ctx.prove('span keeps the fibre type, loss coefficient and dispersion over the spectrum',
+                  fb.type_variety == 'SSMF' and err is None and all(abs(a - b) <= 1e-12 * abs(b) for a, b in zip(coef, ref_coef)) and
+                  all(abs(a - b) <= 1e-9 * abs(b) for a, b in zip(cd, ref_cd_per_m)),
+                  info=dict(info, fibre=fibre, error=err, loss_coef=coef, want=ref_coef))
     ctx.prove('total length preserved', eq(tot, L), info=info)
     chain = list(nx.shortest_path(g, by['a'], by['b']))
     ctx.prove('spans form a chain between the original neighbours', len(chain) == n + 2 and all(g.in_degree(x) == 1 and g.out_degree(x) == 1 for x in fibers))
@@ -188,19 +225,41 @@ def _topology(ctx):
                 names += [f'fiber ({u} → {v})']
             names.append(f'roadm {v}')
             cx += [{'from_node': x, 'to_node': y} for x, y in zip(names[:-1], names[1:])]
-    return els, cx, sites, dict(shape=shape, flavour=flavour, km=km)
+    # a plain terminal (transceiver plugged straight onto the line, no ROADM at that end) attached to the first ROADM site
+    terminal = ctx.choice('terminal without ROADM', ['none', 'one_fibre', 'two_fibres'])
+    if terminal != 'none':
+        loc = {'location': {'latitude': 9, 'longitude': 9, 'city': 'T', 'region': ''}}
+        els.append({'uid': 'trx T', 'type': 'Transceiver', 'metadata': loc})
+        for tag, ends in (('out', ('trx T', f'roadm {sites[0]}')), ('in', (f'roadm {sites[0]}', 'trx T'))):
+            fs = [dict(FIB, uid=f'fiber T {tag} {i}', params={'length': 70 + 10 * i, 'length_units': 'km', 'loss_coef': 0.2}, metadata=loc)
+                  for i in range(1 if terminal == 'one_fibre' else 2)]
+            els += fs
+            names = [ends[0]] + [f['uid'] for f in fs] + [ends[1]]
+            cx += [{'from_node': x, 'to_node': y} for x, y in zip(names[:-1], names[1:])]
+    return els, cx, sites, dict(shape=shape, flavour=flavour, km=km, terminal=terminal)
 
 
 def h_pipeline(ctx):
     from gnpy.core.elements import Roadm, Transceiver, Edfa, Fiber, Fused, Multiband_amplifier
     eqpt = deepcopy(equipment())
     els, cx, sites, desc = _topology(ctx)
+    # the library gives the maximum span length in km or in m
+    units = ctx.choice('Span max_length units', ['km', 'm'])
+    desc['max_length_units'] = units
+    if units == 'm':
+        eqpt['Span']['default'].max_length = eqpt['Span']['default'].max_length * 1000
+        eqpt['Span']['default'].length_units = 'm'
     g, by = build_elements(els, eqpt, connections=cx)
     orig_fibres = {e['uid']: e['params']['length'] for e in els if e['type'] == 'Fiber'}
     orig_reach = {(a, b) for a in sites for b in sites if a != b and nx.has_path(g, by[f'roadm {a}'], by[f'roadm {b}'])}
-    design(g, eqpt)
+    try:
+        design(g, eqpt)
+    except Exception as e:      # noqa: every topology of the grammar is well formed, so any failure of auto-design counts
+        ctx.prove('auto-design completes on a well-formed topology', False, info=dict(desc, error=f'{type(e).__name__}: {e}'))
+        return
+    ctx.prove('auto-design completes on a well-formed topology', True, info=desc)
     span = eqpt['Span']['default']
-    max_km = span.max_length
+    max_km = span.max_length if units == 'km' else span.max_length / 1000
     nodes = list(g.nodes())
     ctx.prove('unique names', len({x.uid for x in nodes}) == len(nodes), info=desc)
     for x in nodes:
@@ -246,6 +305,11 @@ def jobs(tier):
     for max_km, pad in ((150, 10), (100, 12), (100, 10)):
         js.append(dict(name=f'H8a:split_fiber:max{max_km}km:padding{pad}', fn='h_split', params=dict(max_km=max_km, padding=pad), cost=30,
                        witness_every=1))
+    for fibre in FIBRE_PARAMS:
+        if fibre != 'scalar':
+            js.append(dict(name=f'H8a:split_fiber:max150km:padding10:{fibre}', fn='h_split',
+                           params=dict(max_km=150, padding=10, fibre=fibre), cost=30, witness_every=1,
+                           continue_after_violation=fibre == 'lumped_losses'))
     for layout in ('single', 'spliced', 'two_spans'):
         js.append(dict(name=f'H8c:connectors_and_padding:{layout}', fn='h_padding', params=dict(layout=layout), cost=60))
     js.append(dict(name='H8b:designed_network:shape_grammar', fn='h_pipeline', cost=200, witness_every=1, budget_s=250 if tier == 'quick' else 600))
